@@ -126,6 +126,13 @@ def Arguments.defKwdefaults (reeval : Nat → ObjId) (a : Arguments) : Option (L
   let l := (a.kwonlyargs.zip a.kwDefaults).filterMap (fun p => p.2.map (fun e => (p.1, evalD reeval e)))
   if l.isEmpty then none else some l
 
+/-- An attribute in a function's `__dict__`. -/
+inductive Attr where
+  | agModule | agSourceMap | autographInfo
+  /-- anything the user (or `functools.wraps`: `__wrapped__`) put there -/
+  | user (id : Nat)
+  deriving DecidableEq, Repr
+
 /-- A code object, as far as C09 is concerned. -/
 structure Code where
   params : List (Name × Kind)
@@ -144,6 +151,16 @@ structure Fn where
   defaults : Option (List ObjId)
   /-- `__kwdefaults__`: `None` or a dict -/
   kwdefaults : Option (List (Name × ObjId))
+  /-- `__name__` -/
+  name : Name := 0
+  /-- `__qualname__` as the path of enclosing definitions (the `<locals>` markers are implied) -/
+  qualname : List Name := []
+  /-- `__module__` (the `__name__` entry of the globals the defining frame ran with) -/
+  module : Nat := 0
+  /-- `__doc__`: identity of the docstring constant, if any -/
+  doc : Option Nat := none
+  /-- names of the attributes in `__dict__`, in insertion order -/
+  dict : List Attr := []
   deriving DecidableEq, Repr
 
 /-- The cell a function uses for its free name `x` (CPython: position of `x` in `co_freevars`). -/
@@ -211,6 +228,11 @@ structure Src where
       (empty under `from __future__ import annotations` and for lambdas) -/
   annRefs : List Name
   occs : List Occ
+  /-- `some n` when the entity is a lambda (`n` = the name `<lambda>`): the generated code is then
+      `ag__lam = lambda …`, whose function object is again called `<lambda>` -/
+  lambdaName : Option Name := none
+  /-- identity of the docstring constant (kept as first statement by `FunctionTransformer.visit_FunctionDef`) -/
+  doc : Option Nat := none
   deriving DecidableEq, Repr
 
 /-- The function definition inside the generated module (output of `transform_ast`, renamed). -/
@@ -349,6 +371,9 @@ inductive Err where
   | closureMismatch
   /-- executing the entity's `def` in the inner factory hit an unresolvable name -/
   | nameError (n : Name)
+  /-- the statement list of `instantiate` is not one this model can interpret (a statement is missing, out of
+      order, or of an unknown form) -/
+  | protocol
   deriving DecidableEq, Repr
 
 deriving instance DecidableEq for Except
@@ -417,6 +442,101 @@ def instantiate (reeval : Nat → ObjId) (fac : Factory) (moduleNames : List Nam
         let newFn := if truthy kwdefaults then { newFn with kwdefaults := kwdefaults } else newFn
         .ok newFn
 
+/-! ## The protocol statement by statement
+
+`Generated/Closure.lean: instantiateStmts` is the body of `_PythonFnFactory.instantiate` as the translator reads
+it off the working tree.  `runStmts` interprets such a list; `Props/C09.lean: C09_protocol_refines` proves that
+interpreting the extracted list is `instantiate` above, so a statement dropped from / added to the source breaks
+that theorem (and the per-statement theorems `C09_stmt_*`) by name. -/
+
+open Malt.Gen.Closure in
+/-- The local variables of a running `instantiate`. -/
+structure ProtoState where
+  created : Bool := false
+  /-- `closure_map` -/
+  closureMap : Option (List (Name × Cell)) := none
+  /-- `factory_closure` -/
+  factoryClosure : Option (List Cell) := none
+  /-- `bound_factory`: the globals and closure it was given -/
+  bound : Option (DictId × List Cell) := none
+  /-- `new_fn` -/
+  newFn : Option Fn := none
+  /-- the value returned -/
+  returned : Option Fn := none
+
+open Malt.Gen.Closure in
+/-- One statement of `instantiate`. -/
+def stepStmt (reeval : Nat → ObjId) (fac : Factory) (moduleNames : List Name) (globals : DictId)
+    (closure : List Cell) (defaults : Option (List ObjId)) (kwdefaults : Option (List (Name × ObjId)))
+    (st : ProtoState) : Stmt → Except Err ProtoState
+  | .guardCreated => .ok { st with created := true }
+  | .bookkeeping => .ok st
+  | .closureMap => .ok { st with closureMap := some (fac.freevars.zip closure) }
+  | .matchCells .byName =>
+    match st.closureMap with
+    | none => .error .protocol
+    | some m =>
+      match lookupAll m fac.codeFreevars with
+      | .error e => .error e
+      | .ok fc => .ok { st with factoryClosure := some fc }
+  | .lengthCheck =>
+    match st.factoryClosure with
+    | none => .error .protocol
+    | some fc => if fc.length ≠ closure.length then .error .closureMismatch else .ok st
+  | .bindFactory .factoryCode .param .empty .factoryClosure =>
+    match st.factoryClosure with
+    | none => .error .protocol
+    | some fc => .ok { st with bound := some (globals, fc) }
+  | .callFactory true =>
+    match st.bound with
+    | none => .error .protocol
+    | some (g, fc) =>
+      match firstBad (fun x => decide (x ∈ innerBound fac.extraLocals fac.entity.name)
+                        || decide (x ∈ fac.codeFreevars) || decide (x ∈ moduleNames)) fac.entity.defTimeRefs with
+      | some n => .error (.nameError n)
+      | none => .ok { st with newFn := some (execDef reeval fac fc g) }
+  | .restoreDefaults .truthy .param =>
+    match st.newFn with
+    | none => .error .protocol
+    | some f => .ok { st with newFn := some (if truthy defaults then { f with defaults := defaults } else f) }
+  | .restoreKwdefaults .truthy .param =>
+    match st.newFn with
+    | none => .error .protocol
+    | some f => .ok { st with newFn := some (if truthy kwdefaults then { f with kwdefaults := kwdefaults } else f) }
+  | .returnNewFn =>
+    match st.newFn with
+    | none => .error .protocol
+    | some f => .ok { st with returned := some f }
+  | _ => .error .protocol
+
+open Malt.Gen.Closure in
+def runStmts (reeval : Nat → ObjId) (fac : Factory) (moduleNames : List Name) (globals : DictId)
+    (closure : List Cell) (defaults : Option (List ObjId)) (kwdefaults : Option (List (Name × ObjId))) :
+    List Stmt → ProtoState → Except Err ProtoState
+  | [], st => .ok st
+  | s :: ss, st =>
+    match stepStmt reeval fac moduleNames globals closure defaults kwdefaults st s with
+    | .error e => .error e
+    | .ok st' => runStmts reeval fac moduleNames globals closure defaults kwdefaults ss st'
+
+open Malt.Gen.Closure in
+/-- `instantiate`, by interpreting a statement list. -/
+def instantiateBy (stmts : List Stmt) (reeval : Nat → ObjId) (fac : Factory) (moduleNames : List Name)
+    (globals : DictId) (closure : List Cell) (defaults : Option (List ObjId))
+    (kwdefaults : Option (List (Name × ObjId))) : Except Err Fn :=
+  match runStmts reeval fac moduleNames globals closure defaults kwdefaults stmts {} with
+  | .error e => .error e
+  | .ok st =>
+    match st.returned with
+    | some f => .ok f
+    | none => .error .protocol
+
+/-- The statement list this model's `instantiate` is the meaning of. -/
+def modelledStmts : List Malt.Gen.Closure.Stmt :=
+  [.guardCreated, .bookkeeping, .bookkeeping, .closureMap, .matchCells .byName, .lengthCheck,
+   .bindFactory .factoryCode .param .empty .factoryClosure, .callFactory true,
+   .restoreDefaults .truthy .param, .restoreKwdefaults .truthy .param, .returnNewFn]
+
 /-! ## Entry points: functions and bound methods -/
 
 /-- What `transform` accepts (`inspect.isfunction(obj) or inspect.ismethod(obj)`). -/
@@ -449,6 +569,96 @@ def transformFunction (reeval : Nat → ObjId) (extraLocals : List Name) (newNam
   convertCallable reeval (create c.fn.code.freevars extraLocals innerFactoryName (convertEntity extraLocals newName s))
     moduleNames c
 
+/-! ## Bound objects: what `api.converted_call` unwraps before converting
+
+`converted_call(f, args, kwargs)`: a `functools.partial` is unwrapped (its positional arguments go first, its
+keywords are updated by the call's) and the checks are redone on `f.func`; a function or bound method is the
+conversion target itself, a bound method's `__self__` (instance, or class for a classmethod) being prepended to
+the arguments; any other object with a `__call__` on its class has `type(f).__call__` converted and is passed
+first.  A staticmethod attribute is a plain function.  The converted target is then called with the effective
+arguments. -/
+
+/-- What can be handed to `converted_call` / `malt.convert`. -/
+inductive PyCallable where
+  | function (f : Fn)
+  | boundMethod (self : ObjId) (f : Fn)
+  | partialOf (inner : PyCallable) (args : List ObjId) (keywords : List (Name × ObjId))
+  | callableObject (obj : ObjId) (call : Fn)
+  /-- builtins, C functions, … : never converted -/
+  | other (id : ObjId)
+  deriving Repr
+
+/-- `d = base.copy(); d.update(upd)`: present keys keep their position and take the new value, new keys are appended. -/
+def dictUpdate (base upd : List (Name × ObjId)) : List (Name × ObjId) :=
+  upd.foldl (fun acc p =>
+    if acc.any (fun q => q.1 == p.1) then acc.map (fun q => if q.1 == p.1 then (q.1, p.2) else q) else acc ++ [p]) base
+
+/-- The conversion target and the arguments the converted target is called with. -/
+structure Unwrapped where
+  target : Option Fn
+  args : List ObjId
+  kwargs : List (Name × ObjId)
+  deriving Repr
+
+/-- The unwrapping done by `converted_call`. -/
+def unwrap : PyCallable → List ObjId → List (Name × ObjId) → Unwrapped
+  | .function f, a, k => ⟨some f, a, k⟩
+  | .boundMethod s f, a, k => ⟨some f, s :: a, k⟩
+  | .partialOf c pa pk, a, k => unwrap c (pa ++ a) (dictUpdate pk k)
+  | .callableObject o call, a, k => ⟨some call, o :: a, k⟩
+  | .other _, a, k => ⟨none, a, k⟩
+
+/-- Python's own meaning of `c(*a, **k)`, as the chain of calls it performs: every step is `(callee, args, kwargs)`;
+`functools.partial.__call__` calls `self.func(*self.args, *args, **{**self.keywords, **kwargs})`, a bound method calls
+`__func__(__self__, *args)`, an object calls `type(obj).__call__(obj, *args)`. The last step is the function that
+finally runs. -/
+def pyCallChain : PyCallable → List ObjId → List (Name × ObjId) → List (PyCallable × List ObjId × List (Name × ObjId))
+  | .function f, a, k => [(.function f, a, k)]
+  | .boundMethod s f, a, k => [(.boundMethod s f, a, k), (.function f, s :: a, k)]
+  | .partialOf c pa pk, a, k => (.partialOf c pa pk, a, k) :: pyCallChain c (pa ++ a) (dictUpdate pk k)
+  | .callableObject o call, a, k => [(.callableObject o call, a, k), (.function call, o :: a, k)]
+  | .other i, a, k => [(.other i, a, k)]
+
+/-- Wrap a callable in a chain of partials (innermost first). -/
+def wrapPartials (c : PyCallable) : List (List ObjId × List (Name × ObjId)) → PyCallable
+  | [] => c
+  | (pa, pk) :: rest => wrapPartials (.partialOf c pa pk) rest
+
+/-- Positional binding: the positional-capable parameters paired with the positional arguments, in order. -/
+def bindPositional (params : List (Name × Kind)) (args : List ObjId) : List (Name × ObjId) :=
+  ((params.filter (fun p => p.2 == Kind.posOnly || p.2 == Kind.posOrKw)).map Prod.fst).zip args
+
+/-! ## Name, qualified name, module, docstring, `__dict__` of the result
+
+What executing `def ag__f(…)` / `ag__lam = lambda …` inside `outer_factory.<locals>.inner_factory` gives
+(CPython: `__module__` is the `__name__` entry of the globals of the defining frame — here the globals passed to
+`types.FunctionType`, i.e. the source function's), followed by `api._convert_actual` (`ag_module`,
+`ag_source_map`) and `to_graph` (`autograph_artifact`).  The docstring is re-emitted with the generated module's
+indentation: `doc` identifies it up to what `inspect.cleandoc` removes. -/
+
+/-- `modName g`: the `__name__` entry of the dict `g`. -/
+def defMeta (modName : DictId → Nat) (outerFactoryName innerFactoryName newName : Name) (s : Src) (g : Fn) : Fn :=
+  { g with
+    name := s.lambdaName.getD newName
+    qualname := [outerFactoryName, innerFactoryName, s.lambdaName.getD newName]
+    module := modName g.globals
+    doc := s.doc
+    dict := [] }
+
+def convertActualMeta (g : Fn) : Fn := { g with dict := g.dict ++ [Attr.agModule, Attr.agSourceMap] }
+
+def toGraphMeta (g : Fn) : Fn := { g with dict := g.dict ++ [Attr.autographInfo] }
+
+/-- `malt.to_graph(entity)` on a cache miss, through the extracted statement list. -/
+def toGraph (modName : DictId → Nat) (reeval : Nat → ObjId) (extraLocals : List Name)
+    (newName innerFactoryName outerFactoryName : Name) (moduleNames : List Name) (s : Src) (c : Callable) :
+    Except Err Fn :=
+  match instantiateBy Malt.Gen.Closure.instantiateStmts reeval
+      (create c.fn.code.freevars extraLocals innerFactoryName (convertEntity extraLocals newName s))
+      moduleNames c.fn.globals c.fn.closure c.fn.defaults c.fn.kwdefaults with
+  | .error e => .error e
+  | .ok g => .ok (toGraphMeta (convertActualMeta (defMeta modName outerFactoryName innerFactoryName newName s g)))
+
 /-! ## Class predicates of the known deviations (negations of hypotheses of the `_partial` theorems) -/
 
 /-- Some free variable of the function is referenced only inside directive statements (so the generated
@@ -466,6 +676,43 @@ def defaultsCleared (s : Src) (f : Fn) : Bool :=
 resolvable as a global / builtin (it lives only in the enclosing function's frame). -/
 def annotationUnresolvable (s : Src) (freevars moduleNames : List Name) : Bool :=
   s.annRefs.any (fun x => !decide (x ∈ freevars) && !decide (x ∈ moduleNames))
+
+/-! ## Why an entity is outside the proved fragment (`c09.why`)
+
+The hypotheses of `C09_interface_partial`, as one executable classifier.  The first five tags are not
+properties of the *program*: `params`, `freevarsDup`, `closureLen`, `freeUnreferenced` say the description sent
+by the harness is not a description of a CPython function object (they never fire on a real function), and
+`nameCollision` is the side condition owned by C11 (a user name equal to a generated name).  The last three are
+the finding classes. -/
+inductive Why where
+  | params | freevarsDup | closureLen | freeUnreferenced | nameCollision
+  | directiveOnly | annotation | cleared
+  deriving DecidableEq, Repr
+
+/-- `Describes s f` as tags. -/
+def describesWhy (s : Src) (f : Fn) : List Why :=
+  (if f.code.params = s.args.params then [] else [Why.params])
+  ++ (if f.code.freevars.Nodup then [] else [Why.freevarsDup])
+  ++ (if f.closure.length = f.code.freevars.length then [] else [Why.closureLen])
+  ++ (if f.code.freevars.all (fun x => decide (x ∈ s.occs.map Occ.name)) then [] else [Why.freeUnreferenced])
+
+/-- `FreshNames` as a Bool. -/
+def freshNamesB (freevars extra : List Name) (inner : Name) (e : Entity) : Bool :=
+  (innerBound extra e.name).all (fun x => !decide (x ∈ freevars))
+    && !decide (inner ∈ e.bodyRefs) && !decide (inner ∈ e.defTimeRefs)
+
+/-- All reasons why the entity is outside the proved fragment; `[]` = inside. -/
+def why (extra : List Name) (newName inner : Name) (M : List Name) (s : Src) (c : Callable) : List Why :=
+  describesWhy s c.fn
+  ++ (if freshNamesB c.fn.code.freevars extra inner (convertEntity extra newName s) then [] else [Why.nameCollision])
+  ++ (if directiveOnlyFreevar s c.fn.code.freevars then [Why.directiveOnly] else [])
+  ++ (if annotationUnresolvable s c.fn.code.freevars M then [Why.annotation] else [])
+  ++ (if defaultsCleared s c.fn then [Why.cleared] else [])
+
+/-- The tags that are finding classes. -/
+def Why.isFindingClass : Why → Bool
+  | .directiveOnly | .annotation | .cleared => true
+  | _ => false
 
 /-! ## What this model hard-codes about the source text
 
